@@ -6,13 +6,18 @@ Property theorems only; the work is in Lemmas/Wire*.lean.  Models: Model/WireDec
 specification: Spec/Grammar.lean.  `Gen.*` is regenerated from /repo on every run (Tie A).
 -/
 import JsonV.Model.Validate
+import JsonV.Model.TokenLoop
 import JsonV.Spec.Grammar
 import JsonV.Lemmas.WireBasic
 import JsonV.Lemmas.WireNumberScan
 import JsonV.Lemmas.WireString
 import JsonV.Lemmas.WireValue
+import JsonV.Lemmas.WireFuel
+import JsonV.Lemmas.GlueResume
+import JsonV.Lemmas.GlueResumeStr
 import JsonV.Gen.Constants
 import JsonV.Gen.Tables
+import JsonV.Gen.Lits
 
 namespace JsonV.Props.C01
 open JsonV JsonV.Model.Wire JsonV.Model.Validate JsonV.Spec.Grammar
@@ -41,6 +46,20 @@ theorem tie_escapeASCII : ∀ c : UInt8, c < 0x80 →
 /-- the regenerated `normKind` table is the model's `normKind`, for every byte. -/
 theorem tie_normKind : ∀ c : UInt8, (normKind c).toNat = Gen.jsontext_normKind.getD c.toNat 999 := by
   apply forall_u8; decide +kernel
+
+/-- the whitespace bytes of the model are exactly the character literals of `jsonwire.ConsumeWhitespace`
+(regenerated from the source: space, tab, CR, LF) -/
+theorem tie_ws_literals : ∀ c : UInt8, isWs c = Gen.jsonwire_ConsumeWhitespace_strs.contains [c.toNat] := by
+  apply forall_u8; decide +kernel
+
+/-- the only character literal of `jsonwire.ConsumeSimpleString` is the double quote (twice), and
+`hasEscapedUTF16Prefix` compares against exactly the literals the model uses
+(`\\ u d D c f C F 0 9 a f A F`, indices `0 1 2 3 2 6`). -/
+theorem tie_string_literals :
+    Gen.jsonwire_ConsumeSimpleString_strs = [[0x22], [0x22]] ∧
+    Gen.jsonwire_hasEscapedUTF16Prefix_strs =
+      [[0x5C], [0x75], [0x64], [0x44], [0x63], [0x66], [0x43], [0x46], [0x30], [0x39], [0x61], [0x66], [0x41], [0x46]] ∧
+    Gen.jsonwire_hasEscapedUTF16Prefix_ints = [0, 1, 2, 3, 2, 6] := by decide
 
 /-! ### Whitespace -/
 
@@ -212,37 +231,159 @@ def gopts (o : VOpts) : GOpts := ⟨!o.allowInvalidUTF8, o.allowDup⟩
 (the name unescaped by AppendUnquote, or its inner bytes when the scanner found it verbatim) -/
 def nameKey (o : VOpts) (quoted : Bytes) : Bytes := unescapedName quoted (valueString o quoted).2.1
 
-/-- Soundness, names not judged: whatever `consumeValue` accepts at depth `d + 1` (the decoder's
-one-based depth) is a value of the RFC 8259 grammar nested at most `maxNestingDepth` deep, with
-strings in the selected UTF-8 mode (the grammar instance with `allowDup := true`). -/
-theorem value_sound_partial (o : VOpts) (fuel d : Nat) (r : Bytes) (n : Nat) (hd : d ≤ maxNestingDepth)
+/-- Soundness of the value path: whatever `consumeValue` accepts at depth `d + 1` (the decoder's
+one-based depth) is a value of the RFC 8259 grammar nested at most `maxNestingDepth` deep, with strings in
+the selected UTF-8 mode and — unless AllowDuplicateNames — member names of every object pairwise
+different after unescaping. -/
+theorem value_sound (o : VOpts) (fuel d : Nat) (r : Bytes) (n : Nat) (hd : d ≤ maxNestingDepth)
     (h : consumeValue o fuel (d + 1) r = (n, .ok)) :
-    n ≤ r.length ∧ JValue ⟨!o.allowInvalidUTF8, true⟩ maxNestingDepth id d (r.take n) :=
+    n ≤ r.length ∧ JValue (gopts o) maxNestingDepth (nameKey o) d (r.take n) :=
   (sound_all o fuel).1 d r n hd h
 
-/-- Soundness of `Value.IsValid`'s framing (names not judged): accepted ⇒ `ws value ws`. -/
-theorem valid_sound_partial (o : VOpts) (b : Bytes) (h : isValid o b = true) :
-    JText ⟨!o.allowInvalidUTF8, true⟩ maxNestingDepth id b := by
+/-- Soundness of `Value.IsValid`: accepted ⇒ `ws value ws` of the grammar instance selected by the
+options (RFC 7493 by default: strict UTF-8, unique names). -/
+theorem valid_sound (o : VOpts) (b : Bytes) (h : isValid o b = true) :
+    JText (gopts o) maxNestingDepth (nameKey o) b := by
   unfold isValid at h
   have : (validText o b).2 = .ok := by simpa using h
   exact validText_sound o b (validText o b).1 (Prod.ext rfl this)
 
-/-- The full statements.  `valid_sound_full` adds the uniqueness of names (as compared by `nameKey`)
-to `valid_sound_partial`; `valid_complete_full` is the converse; `stream_iff_full` is the stream
-recogniser.  They are validated by the correspondence runs, not proved. -/
-def valid_sound_full : Prop :=
-  ∀ (o : VOpts) (b : Bytes), isValid o b = true → JText (gopts o) maxNestingDepth (nameKey o) b
+/-- "`fuelFor` suffices": the validator model never answers with the artificial out-of-fuel class, for any
+input (the fuel `3·|b| + 4` covers the at most three nested calls per consumed byte). -/
+theorem valid_no_fuel (o : VOpts) (b : Bytes) : (validText o b).2 ≠ .fuel :=
+  JsonV.Lemmas.WireFuel.validText_no_fuel o b
 
+/-- Soundness of the stream recogniser: a ReadValue loop that ends with io.EOF has read a concatenation of
+texts of the grammar separated by optional whitespace — io.EOF is reported only at a value boundary. -/
+theorem stream_sound (o : VOpts) (b : Bytes) (cnt off : Nat) (h : stream o b = (cnt, off, .ioEOF)) :
+    JStream (gopts o) maxNestingDepth (nameKey o) b :=
+  JsonV.Lemmas.WireFuel.stream_sound' o b cnt off h
+
+/-- The full statements that are NOT proved.  `valid_complete_full` is the converse of `valid_sound`
+(including "`fuelFor` suffices"); `stream_iff_full` is the stream recogniser (its ⇒ half is `stream_sound`); `token_value_full` says that the
+token path (Model/TokenLoop.lean) and the value path give the same verdict.  They are validated by the
+correspondence runs (the harness compares both model paths with each other and with the code on every input). -/
 def valid_complete_full : Prop :=
   ∀ (o : VOpts) (b : Bytes), JText (gopts o) maxNestingDepth (nameKey o) b → isValid o b = true
 
 def stream_iff_full : Prop :=
   ∀ (o : VOpts) (b : Bytes), (∃ cnt, stream o b = (cnt, b.length, .ioEOF)) ↔ JStream (gopts o) maxNestingDepth (nameKey o) b
 
+/-- "read by tokens or by values": the ReadToken loop and the ReadValue loop complete the same number of
+top-level values and end cleanly (io.EOF) on exactly the same inputs (no slice exceeds 2^61 bytes). -/
+def token_value_full : Prop :=
+  ∀ (o : VOpts) (b : Bytes), b.length < 2 ^ 61 →
+    ((Model.TokenLoop.tokens o b).1 = (stream o b).1 ∧
+     ((Model.TokenLoop.tokens o b).2.2 = .ioEOF ↔ (stream o b).2.2 = .ioEOF))
+
 -- `[1,{"a":null}] ` is accepted; `[1,]` is rejected at offset 3; two equal names are rejected unless allowed
 example : isValid {} [0x5B, 0x31, 0x2C, 0x7B, 0x22, 0x61, 0x22, 0x3A, 0x6E, 0x75, 0x6C, 0x6C, 0x7D, 0x5D, 0x20] = true := by decide +kernel
 example : validText {} [0x5B, 0x31, 0x2C, 0x5D] = (3, .invalidChar) := by decide +kernel
 example : validText {} [0x7B, 0x22, 0x61, 0x22, 0x3A, 0x31, 0x2C, 0x22, 0x61, 0x22, 0x3A, 0x32, 0x7D] = (7, .dupName) := by decide +kernel
 example : isValid ⟨false, true⟩ [0x7B, 0x22, 0x61, 0x22, 0x3A, 0x31, 0x2C, 0x22, 0x61, 0x22, 0x3A, 0x32, 0x7D] = true := by decide +kernel
+
+/-! ### Glue with slice C05 (Model/Resume.lean): the two model copies of the scanners are equal -/
+
+section Glue
+open JsonV.Lemmas.GlueResume
+
+/-- `Resume.consumeWhitespace` is `Wire.consumeWhitespace`. -/
+theorem glue_whitespace (b : Bytes) : Model.Resume.consumeWhitespace b = consumeWhitespace b := ws_eq b
+
+/-- `Resume.consumeLiteral` is `Wire.consumeLiteral` (error enums identified by `eR`). -/
+theorem glue_literal (b lit : Bytes) :
+    ((Model.Resume.consumeLiteral b lit).1, eR (Model.Resume.consumeLiteral b lit).2) = consumeLiteral b lit :=
+  lit_eq b lit
+
+/-- `Resume.consumeNumberResumable` is `Wire.consumeNumberResumable`, for every buffer, resume offset and
+state word: C05's resumability theorems (`num_resume`, `num_stable`, `chunk_indep_num`) are theorems
+about the scanner the grammar theorems above speak about. -/
+theorem glue_number (b : Bytes) (off st : Nat) :
+    mapNum (Model.Resume.consumeNumberResumable b off st) = consumeNumberResumable b off st :=
+  number_resumable_eq b off st
+
+/-- Chunk independence meets the grammar: however the input is cut into chunks `c :: cs`, the decoder's
+refill loop for numbers (`decoderState.consumeNumber`, modelled by C05) answers `(n, nil)` exactly when
+the first `n` bytes of the concatenated input are a number of the grammar that cannot be extended. -/
+theorem number_chunk_indep_grammar (c : Bytes) (cs : List Bytes) (n : Nat) :
+    Model.Resume.consumeNumberChunks c 0 0 cs = (n, .ok) ↔
+      n ≤ (c ++ cs.flatten).length ∧ JNumber ((c ++ cs.flatten).take n) ∧
+        (n = (c ++ cs.flatten).length ∨ ¬ NumPrefix ((c ++ cs.flatten).take (n + 1))) := by
+  rw [JsonV.Model.Resume.num_chunk_indep c cs, ← number_iff]
+  generalize c ++ cs.flatten = b
+  have hg := glue_number b 0 0
+  have hcn : consumeNumber b = ((Model.Resume.consumeNumberResumable b 0 0).1, eR (Model.Resume.consumeNumberResumable b 0 0).2.2) := by
+    simp [consumeNumber, ← hg, mapNum, stInit]
+  rw [hcn]
+  simp only [Model.Resume.consumeNumberChunks]
+  rcases Model.Resume.consumeNumberResumable b 0 0 with ⟨m, st, e⟩
+  cases e <;> simp [eR]
+  all_goals (split <;> simp_all)
+
+theorem join_empty_left (f : ValueFlags) : ValueFlags.join {} f = f := by
+  cases f; simp [ValueFlags.join]
+
+/-- `Resume.consumeStringResumable` is `Wire.consumeStringResumable` (offset, flags joined onto the incoming
+flags, error class), for every buffer, resume offset and UTF-8 mode. -/
+theorem glue_string (f : Model.Resume.VFlags) (b : Bytes) (off : Nat) (v : Bool) :
+    (Model.Resume.consumeStringResumable f b off v).1 = (consumeStringResumable b off v).1 ∧
+    fR (Model.Resume.consumeStringResumable f b off v).2.1 = (fR f).join (consumeStringResumable b off v).2.1 ∧
+    eR (Model.Resume.consumeStringResumable f b off v).2.2 = (consumeStringResumable b off v).2.2 :=
+  string_resumable_eq f b off v
+
+/-- C05's `str_resume`, transferred to the scanner of this slice: if scanning `b` ends in
+io.ErrUnexpectedEOF with resume offset `n` and flags `f`, then for EVERY extension `e` resuming at `n`
+answers what a fresh scan of `b ++ e` answers (offset, error class, and flags once `f` is joined in). -/
+theorem string_resume_transfer (b e : Bytes) (v : Bool) (n : Nat) (f : ValueFlags)
+    (h : consumeStringResumable b 0 v = (n, f, .eof)) :
+    (consumeStringResumable (b ++ e) n v).1 = (consumeStringResumable (b ++ e) 0 v).1 ∧
+    f.join (consumeStringResumable (b ++ e) n v).2.1 = (consumeStringResumable (b ++ e) 0 v).2.1 ∧
+    (consumeStringResumable (b ++ e) n v).2.2 = (consumeStringResumable (b ++ e) 0 v).2.2 := by
+  obtain ⟨g1, g2, g3⟩ := glue_string .none b 0 v
+  rw [h] at g1 g2 g3
+  rcases hr : Model.Resume.consumeStringResumable .none b 0 v with ⟨n', f', e'⟩
+  rw [hr] at g1 g2 g3
+  simp only at g1 g2 g3
+  have he : e' = .eof := eR_inj e' .eof (by rw [g3]; rfl)
+  subst he
+  subst g1
+  have hres := JsonV.Model.Resume.str_resume_eq .none b e v n' f' hr
+  obtain ⟨a1, a2, a3⟩ := glue_string f' (b ++ e) n' v
+  obtain ⟨b1, b2, b3⟩ := glue_string .none (b ++ e) 0 v
+  rw [hres] at a1 a2 a3
+  have hf : fR f' = f := by
+    rw [g2]; exact join_empty_left f
+  have hnone : fR Model.Resume.VFlags.none = {} := rfl
+  rw [hnone, join_empty_left] at b2
+  rw [hf] at a2
+  exact ⟨by rw [← a1, b1], by rw [← a2, b2], by rw [← a3, b3]⟩
+
+/-- Chunk independence meets the grammar, for strings: however the input is cut into chunks, the decoder's
+refill loop for strings (`decoderState.consumeString`, modelled by C05) answers `(n, _, nil)` exactly when the
+first `n` bytes of the concatenated input are a string of the grammar (in the selected UTF-8 mode). -/
+theorem string_chunk_indep_grammar (c : Bytes) (cs : List Bytes) (v : Bool) (n : Nat) :
+    (∃ f, Model.Resume.consumeStringChunks .none c 0 v cs = (n, f, .ok)) ↔
+      n ≤ (c ++ cs.flatten).length ∧ JString v ((c ++ cs.flatten).take n) := by
+  rw [← string_iff]
+  simp only [JsonV.Model.Resume.str_chunk_indep]
+  generalize c ++ cs.flatten = b
+  obtain ⟨g1, g2, g3⟩ := glue_string .none b 0 v
+  have hnone : fR Model.Resume.VFlags.none = {} := rfl
+  rw [hnone, join_empty_left] at g2
+  constructor
+  · rintro ⟨f, hf⟩
+    rw [hf] at g1 g2 g3
+    refine ⟨fR f, ?_⟩
+    exact Prod.ext g1.symm (Prod.ext g2.symm g3.symm)
+  · rintro ⟨f, hf⟩
+    unfold consumeString at hf
+    rw [hf] at g1 g2 g3
+    rcases hr : Model.Resume.consumeStringResumable .none b 0 v with ⟨n', f', e'⟩
+    rw [hr] at g1 g2 g3
+    simp only at g1 g2 g3
+    have he : e' = .ok := eR_inj e' .ok (by rw [g3]; rfl)
+    exact ⟨f', by rw [g1, he]⟩
+
+end Glue
 
 end JsonV.Props.C01
